@@ -21,8 +21,8 @@ import (
 // a length field, zero-filled tails, whole-record moves, markers at file boundaries,
 // records larger than the reader's and writer's buffers).
 
-const corpusSize = 8
-const corpusExhaustive = 1 // corpus case 7 is an exhaustively enumerated fixed log
+const corpusSize = 9
+const corpusExhaustive = 2 // corpus cases 7 and 8 are exhaustively enumerated fixed logs
 
 var corpusTime = time.Unix(1700000000, 123456789).UTC()
 
@@ -164,7 +164,7 @@ func corpus(c *core.Case) {
 			return
 		}
 		defer closeReadOnly(ro)
-		j := &judge{c: c, lm: lm}
+		j := &judge{c: c, lm: lm, ctx: fl.ctx()}
 		c.Guard("file WAL with a record at the size limit", func() interface{} { return j.witness(j.cur, nil) }, func() {
 			j.readIntact(ro, meterExact)
 			searchAll(j, ro, fr, files, 2)
@@ -248,8 +248,8 @@ func corpus(c *core.Case) {
 				return
 			}
 			defer closeReadOnly(ro)
-			j := &judge{c: c, lm: lm}
-			c.Guard("fixed rotated log", func() interface{} { return j.witness(j.cur, map[string]interface{}{"trace": fl.trace}) }, func() {
+			j := &judge{c: c, lm: lm, ctx: fl.ctx()}
+			c.Guard("fixed rotated log", func() interface{} { return j.witness(j.cur, nil) }, func() {
 				le := newLayoutEnv(j, ro, files, fr)
 				for fi := range files {
 					lf := localFrames(lm, files, fi)
@@ -296,8 +296,8 @@ func corpus(c *core.Case) {
 			}
 			lm, files := layoutModel(c, fl, "one record per file")
 			if lm != nil {
-				j := &judge{c: c, lm: lm}
-				c.Guard("one record per file", func() interface{} { return j.witness(j.cur, map[string]interface{}{"trace": fl.trace}) }, func() {
+				j := &judge{c: c, lm: lm, ctx: fl.ctx()}
+				c.Guard("one record per file", func() interface{} { return j.witness(j.cur, nil) }, func() {
 					j.readIntact(fl.wal, meterExact)
 					searchAll(j, fl.wal, fr, files, 3)
 				})
@@ -352,8 +352,8 @@ func corpus(c *core.Case) {
 			return
 		}
 		defer closeReadOnly(ro)
-		lj := &judge{c: c, lm: llm}
-		c.Guard("rotated log with full-size block parts", func() interface{} { return lj.witness(lj.cur, map[string]interface{}{"trace": fl.trace}) }, func() {
+		lj := &judge{c: c, lm: llm, ctx: fl.ctx()}
+		c.Guard("rotated log with full-size block parts", func() interface{} { return lj.witness(lj.cur, nil) }, func() {
 			lj.readIntact(ro, meterExact)
 			searchAll(lj, ro, fr, files, 2)
 			le := newLayoutEnv(lj, ro, files, fr)
@@ -371,6 +371,14 @@ func corpus(c *core.Case) {
 
 	case 7: // a fixed small log, exhaustively
 		exhaustive(c, rand.New(rand.NewSource(20)), fixedList(21, 8, true), "corpus:fixed")
+		run.Count("exh_logs_done", 1)
+
+	case 8: // records that end in zero bytes: a cut that only loses zeros leaves a record a buffer-filling reader still sees whole
+		l := fixedList(22, 3, true)
+		list := []consensus.WALMessage{l[0], types.EventDataRoundState{Height: 3, Round: 1, Step: "RoundStepPropose\x00\x00\x00"}, l[1],
+			consensus.EndHeightMessage{Height: 1}, types.EventDataRoundState{Height: 4, Round: 0, Step: "\x00"}, l[2],
+			consensus.EndHeightMessage{Height: 2}, types.EventDataRoundState{Height: 5, Round: 0, Step: "\x00\x00"}}
+		exhaustive(c, rand.New(rand.NewSource(23)), list, "corpus:zero-tails")
 		run.Count("exh_logs_done", 1)
 	}
 	run.Count("corpus_scenarios", 1)
